@@ -19,6 +19,7 @@ every instruction is written so that it must pass (`m` or `! m`); if that case d
 of scenarios anyway, every probe is run on its own, un-negated.
 """
 import json
+import zlib
 import os
 import random
 import time
@@ -247,7 +248,8 @@ def file_name(name):
     parts = list(name)
     lead = ''
     if parts[0] == ABS:
-        lead, parts = '/', parts[1:]
+        # an absolute name: one slash, or the two slashes that POSIX lets a root of its own begin with
+        lead, parts = ('//' if zlib.crc32(repr(name).encode()) % 2 else '/'), parts[1:]
     return lead + '/'.join('..' if c == DOTDOT else CHAR[c] for c in parts)
 
 
